@@ -65,6 +65,7 @@ mpn_hgcd_appr (mp_ptr ap, mp_ptr bp, mp_size_t n,
     return 0;
 
   ASSERT ((n+1)/2 - 1 < M->alloc);
+  MPIR_VERIF_HIT (MPIR_VERIF_HGCD_APPR);
 
   /* We aim for reduction of to GMP_NUMB_BITS * s bits. But each time
      we discard some of the least significant limbs, we must keep one
